@@ -199,6 +199,11 @@ func runC19(ctx *Ctx) {
 			c19Handed(ctx, n+700+c, ctx.Sub(n+700+c))
 		}
 	}
+	for drv := 0; drv < 2; drv++ {
+		if ctx.Want(n + 600 + drv) {
+			c19ReusedRemote(ctx, n+600+drv, drv)
+		}
+	}
 	if ctx.Want(n + 10) {
 		defer c19WS(ctx, n+10)
 	}
